@@ -19,6 +19,7 @@ use crate::common::ArgOption;
 use crate::datamodel::{create_data_arc, Data, SourceCode};
 use quick_xml::events::attributes::Attributes;
 use quick_xml::events::{BytesStart, Event};
+use quick_xml::name::QName;
 use quick_xml::Reader;
 use url::Url;
 
@@ -267,6 +268,9 @@ struct ReaderState {
     executable_content_stack: Vec<(ExecutableContentId, &'static str)>,
     current_executable_content: ExecutableContentId,
     include_paths: Vec<PathBuf>,
+
+    /// Qualified name (with namespace prefix, if any) of the start tag handled by start_element.
+    current_qname: Vec<u8>,
 }
 
 impl ReaderState {
@@ -286,6 +290,7 @@ impl ReaderState {
             file: Path::new("Buffer").to_path_buf(),
             content: "".to_string(),
             include_paths: Vec::new(),
+            current_qname: Vec::new(),
         }
     }
 
@@ -1400,13 +1405,13 @@ impl ReaderState {
         self.add_executable_content(Box::new(send_params));
     }
 
-    /// Reads the content until an end-tag is encountered.
+    /// Reads the content until the end-tag of the current element is encountered.
+    /// The end-tag carries the same qualified name as the start-tag (e.g. "sc:script").
     fn read_content(&mut self, tag: &str, reader: &mut XReader) -> String {
-        let start = BytesStart::new(tag.to_string());
-        let end = start.to_end().into_owned();
+        let qname = self.current_qname.clone();
 
         let mut buf = Vec::new();
-        let content = match reader.read_to_end_into(end.name(), &mut buf) {
+        let content = match reader.read_to_end_into(QName(&qname), &mut buf) {
             Ok(span) => {
                 let r = self.content[(span.start as usize)..(span.end as usize)]
                     .trim()
@@ -1416,7 +1421,7 @@ impl ReaderState {
                 r
             }
             Err(e) => {
-                panic!("XML invalid. {}", e);
+                panic!("XML invalid. <{}>: {}", tag, e);
             }
         };
         // Remove element from stack
@@ -1704,6 +1709,7 @@ impl ReaderState {
     fn start_element(&mut self, reader: &mut XReader, e: &BytesStart, has_content: bool) {
         let n = e.local_name();
         let name = str::from_utf8(n.as_ref()).unwrap();
+        self.current_qname = e.name().as_ref().to_vec();
         self.push(name);
 
         #[cfg(feature = "Debug_Reader")]
